@@ -214,6 +214,9 @@ def mode_sweep(args):
     tw = mode_twice({})
     failures.extend(tw['failures'])
     done += tw['evaluations']
+    ne = mode_nested({})
+    failures.extend(ne['failures'])
+    done += ne['evaluations']
     return {'evaluations': done + cyc['evaluations'], 'distinct': done + cyc['evaluations'], 'exhaustive': exhaustive,
             'total_cases': len(cases), 'failures': failures, 'seconds': round(time.time() - t0, 2)}
 
@@ -290,6 +293,77 @@ def mode_twice(args):
                 failures.append({'input': {'twice': True, 'workers': workers, 'outcomes': outc},
                                  'observed': f'C03: second schedule() on the same scheduler did not come back ({out})', 'expected': 'returns'})
                 return {'evaluations': n, 'failures': failures}
+    return {'evaluations': n, 'failures': failures}
+
+
+def mode_nested(args):
+    """C03 (and C01/C02): two scheduling calls that overlap in time -- a task of an outer run schedules an inner graph on its own backend
+    (both backends built without arguments besides n_workers) -- each come back with their own tasks executed by their own workers"""
+    from valjean.cosette.task import Task, TaskStatus
+    from valjean.cosette.depgraph import DepGraph
+    from valjean.cosette.scheduler import Scheduler
+    from valjean.cosette.backends.queue import QueueScheduling
+    from valjean.cosette.env import Env
+    failures, n = [], 0
+    for outer_workers, inner_len in ((4, 5), (2, 3), (3, 1)):
+        seen = []
+
+        class Inner(Task):
+            def do(self, env, config):
+                seen.append((self.name, threading.current_thread().name, id(env)))
+                time.sleep(0.01)
+                return {self.name: {'v': 1}}, TaskStatus.DONE
+        inner_env = Env()
+
+        class Outer(Task):
+            def do(self, env, config):
+                if self.name != 'o0':
+                    return {self.name: {}}, TaskStatus.DONE
+                time.sleep(0.05)              # the other outer workers are idle, blocked on their queue
+                chain = []
+                for k in range(inner_len):
+                    chain.append(Inner(f'y{k}', deps=chain[-1:]))
+                g = DepGraph.from_dependency_dictionary({t: list(t.depends_on) for t in chain})
+                Scheduler(hard_graph=g, backend=QueueScheduling(n_workers=1)).schedule(env=inner_env)
+                return {self.name: {'inner': {k: v['status'].name for k, v in inner_env.items()}}}, TaskStatus.DONE
+        outs = [Outer(f'o{k}') for k in range(2)]
+        g = DepGraph.from_dependency_dictionary({t: [] for t in outs})
+        outer_env = Env()
+        out = {}
+        before = threading.active_count()
+
+        def target():
+            try:
+                Scheduler(hard_graph=g, backend=QueueScheduling(n_workers=outer_workers)).schedule(env=outer_env)
+                out['ret'] = True
+            except BaseException as e:     # noqa
+                out['exc'] = repr(e)
+        th = threading.Thread(target=target, daemon=True)
+        th.start()
+        th.join(HANG_S)
+        n += 1
+        probs = []
+        if th.is_alive():
+            probs.append(f'C03: the outer schedule() did not come back (inner statuses: { {k: v.get("status") for k, v in inner_env.items()} })')
+        else:
+            time.sleep(0.05)
+            if threading.active_count() > before:
+                probs.append(f'C03: {threading.active_count() - before} thread(s) left behind')
+            bad = {k: v.get('status') for k, v in inner_env.items() if v.get('status') != TaskStatus.DONE}
+            if bad or len(inner_env) != inner_len:
+                probs.append(f'C02: inner run: {bad or dict(inner_env)}')
+            foreign = [s_ for s_ in seen if s_[2] != id(inner_env)]
+            if foreign:
+                probs.append(f'C01: inner task {foreign[0][0]} was executed with the environment of another run')
+            if len({s_[1] for s_ in seen}) > 1:
+                probs.append(f'C03: the tasks of the 1-worker inner run were executed by {len({s_[1] for s_ in seen})} different threads')
+            if any(k.startswith('y') for k in outer_env):
+                probs.append('C02: inner tasks appear in the outer environment')
+        if probs:
+            failures.append({'input': {'nested': True, 'outer_workers': outer_workers, 'inner_chain': inner_len}, 'observed': probs[:3],
+                             'expected': 'two overlapping scheduling calls do not share workers, queue or environment'})
+            if th.is_alive():
+                break
     return {'evaluations': n, 'failures': failures}
 
 
@@ -555,7 +629,7 @@ def mode_rerun_single(args):
     return {'problems': _rerun_case(args['n'], edges, args['first_run'], args['between'])}
 
 
-MODES = {'twice': mode_twice, 'sweep': mode_sweep, 'cyclic': mode_cyclic, 'park': mode_park, 'rerun': mode_rerun, 'single': mode_single,
+MODES = {'nested': mode_nested, 'twice': mode_twice, 'sweep': mode_sweep, 'cyclic': mode_cyclic, 'park': mode_park, 'rerun': mode_rerun, 'single': mode_single,
          'rerun_single': mode_rerun_single}
 
 
